@@ -7,7 +7,7 @@ ID = "C06"
 THEOREMS = "Properties/C06.v"
 HARNESS = ["c06"]
 LEVEL = "proof"
-READY = False
+READY = True
 TRUSTED_BASE = [
     "Coq 8.16.1 kernel (coqc, full .vo build); vm_compute in the refutation witness, the non-vacuity Examples and the correspondence evaluation",
     "no axioms: Print Assumptions reports 'Closed under the global context' for every theorem of Properties/C06.v",
